@@ -127,26 +127,38 @@ def run(ctx):
                 ctx.bad('C03.4-trailing-data', inst, 'Ok is returned without testing that no bytes remain after the term', ctx.where(FB, bb),
                         key='DOM:%s%s:ok-without-trailing-check' % (DEC, fn))
     # nested buffers: a parser that parses a term out of a buffer it created itself must test that term's remainder
-    PC = P.B(DEC + 'parse_compressed')
-    if PC is not None:
-        inner = []
+    from ..etf import is_parser_sig
+    n_inner = 0
+    for p_ in sorted(q for q in ctx.F.bodies if q.startswith(DEC) and ctx.F.bodies[q]['kind'] in ('Fn', 'Closure')):
+        PC = P.B(p_)
         for bb, tt in PC.calls():
-            if is_call_to(tt, DEC + 'parse_term'):
-                o = unwrap(PC.origin(tt['args'][0]))[0]
-                # buffer is a local Vec (not derived from the function's input slice)
-                if o[0] == 'local' and 'Vec<u8>' in PC.local_ty(o[1]):
-                    inner.append((bb, tt))
-        for bb, tt in inner:
+            names = [n for n in callee_names(tt) if n.startswith(DEC) and is_parser_sig(ctx.F.fns.get(n))]
+            if not names or not tt['args']:
+                continue
+            o = unwrap(PC.origin(tt['args'][0]))[0]
+            own_buffer = (o[0] == 'local' and 'Vec<u8>' in PC.local_ty(o[1])) or (o[0] == 'call' and str(o[1]).startswith('alloc::vec::Vec'))
+            if not own_buffer:
+                continue
+            n_inner += 1
+            inst = '%s:inner-remainder' % p_.rsplit('::', 1)[1]
             d = PC.derived_locals([tt['dst']['l']])
-            tested = False
-            for b2, t2 in PC.calls():
-                if (callee_of(t2)[0] or '').endswith('is_empty') and t2['args'] and any(l in d for l in PC._op_locals(t2['args'][0])):
-                    tested = True
+            oks = [b3 for b3, j3, st3 in PC.stmts() if st3['k'] == '=' and st3['pl']['l'] == 0 and st3['rv']['k'] == 'agg' and st3['rv'].get('var') == 'Ok'
+                   and b3 in PC.reachable(bb)]
+            tested = bool(oks)
+            for b3 in oks:
+                dom = False
+                for (src, vals, dst) in dominating_edges(PC, b3):
+                    sb = PC.switch_bool_edges(src)
+                    if sb and sb[0][0] == 'call' and (callee_of(sb[0][2])[0] or '').endswith('is_empty') and dst == sb[1] \
+                            and any(l in d for l in PC._op_locals(sb[0][2]['args'][0])):
+                        dom = True
+                tested = tested and dom
             if tested:
-                ctx.ok('C03.4-trailing-data', 'parse_compressed:inner-remainder', 'remainder of the inflated buffer is tested', ctx.where(PC, bb))
+                ctx.ok('C03.4-trailing-data', inst, 'every Ok return after it is dominated by is_empty() of the remainder of the buffer this function built (the inflated data)', ctx.where(PC, bb))
             else:
-                ctx.bad('C03.4-trailing-data', 'parse_compressed:inner-remainder', 'bytes left in the inflated buffer after the term are ignored', ctx.where(PC, bb),
-                        key='DOM:%sparse_compressed:inner-remainder-ignored' % DEC)
+                ctx.bad('C03.4-trailing-data', inst, 'bytes left in the inflated buffer after the term are ignored', ctx.where(PC, bb),
+                        key='DOM:%s:inner-remainder-ignored' % p_)
+    ctx.anchor(n_inner >= 1, 'a parser call on a locally built buffer (parse_compressed)')
 
     # ---------------- clause 5: CAST over the decoder ----------------------------------------------------
     ctx.rule('C03.5-cast', 'wire numbers are widened, never narrowed, except under a range guard', floor=3)
